@@ -124,6 +124,17 @@ def make_strategy(script: dict):
                     ev['ind'] = None if val != val else float(val)
                 except Exception as ex:
                     ev['ind'] = f'raise:{type(ex).__name__}'
+            if self.s.get('read_foreign') and name == 'before' and self.index % 10 == 0:
+                # candles of pairs / timeframes that are NOT routed in this session: a fresh process raises; nothing an earlier
+                # session left behind may answer instead
+                out_ = {}
+                for sy_, tf_ in self.s['read_foreign']:
+                    try:
+                        c_ = self.get_candles(self.exchange, sy_, tf_)
+                        out_[f'{sy_}|{tf_}'] = [len(c_), [float(x) for x in c_[-1]] if len(c_) else None]
+                    except Exception as ex:
+                        out_[f'{sy_}|{tf_}'] = f'raise:{type(ex).__name__}'
+                ev['foreign'] = out_
             if self.s.get('log_hp'):
                 ev['hp'] = None if self.hp is None else {k: (v if isinstance(v, (int, float)) else repr(v)) for k, v in self.hp.items()}
                 ev['hp_types'] = None if self.hp is None else {k: type(v).__name__ for k, v in self.hp.items()}
@@ -297,7 +308,8 @@ def make_strategy(script: dict):
                 rows = self._entry_rows('long')
                 self.buy = rows
                 if self.s.get('exits_in', 'open') == 'go' and self.exchange_type != 'spot':
-                    ps = [p for q, p in rows]
+                    # (a row within the market band is filled at the CURRENT price, not at its own: both are possible entries)
+                    ps = [p for q, p in rows] + [float(self.price)]
                     sl, tp = self._exit_rows('long', None, sum(q for q, p in rows), min(ps), max(ps))
                     if sl:
                         self.stop_loss = sl
@@ -314,7 +326,7 @@ def make_strategy(script: dict):
                 rows = self._entry_rows('short')
                 self.sell = rows
                 if self.s.get('exits_in', 'open') == 'go':
-                    ps = [p for q, p in rows]
+                    ps = [p for q, p in rows] + [float(self.price)]
                     sl, tp = self._exit_rows('short', None, sum(q for q, p in rows), min(ps), max(ps))
                     if sl:
                         self.stop_loss = sl
